@@ -392,11 +392,21 @@ def r7(ctx):
         if c['callee'] != PUSH:
             continue
         n += 1
-        gs = [(bb(g['cond'], ctx.an()), truth(g)) for g in guards(s, c['blk']) if g['cond'] is not None]
         lastW, lastB = eqa(at(1), offer(W)), eqa(at(1), offer(B))
         prevO = eqa(at(2), offer(('cnot', STM)))
-        last_offer = any(t is True and (match(lastW, cond) is not None or match(lastB, cond) is not None) for cond, t in gs)
-        prev_offer = any(t is True and match(prevO, cond) is not None for cond, t in gs)
+        disj = dnf(s, c['blk'])
+        kinds = []
+        for conj in disj:
+            gs = [(bb(g['cond'], ctx.an()), g['truth']) for g in conj if g['cond'] is not None]
+            if any(t is True and (match(lastW, cond) is not None or match(lastB, cond) is not None) for cond, t in gs):
+                kinds.append('last')
+            elif any(t is True and match(prevO, cond) is not None for cond, t in gs):
+                kinds.append('prev')
+            else:
+                kinds.append('none')
+        gs = [(bb(g['cond'], ctx.an()), g['truth']) for conj in disj for g in conj if g['cond'] is not None]
+        last_offer = bool(kinds) and all(k == 'last' for k in kinds)
+        prev_offer = bool(kinds) and all(k in ('prev', 'last') for k in kinds) and not last_offer
         if last_offer:
             ctx.ok(R, 'AcceptDraw push: the latest action is a draw offer', where(s.body, c['line']))
         elif prev_offer:
